@@ -28,8 +28,9 @@ Judge(o) ==
                 m == ImplCall(fn, call)
             IN /\ Chk(bad \/ (exp.raised = o.real.raised /\ (exp.raised \/ exp.o = o.real.o)), o.tid, "oracle:result")
                /\ Chk(DiagnosisOK(fn, call, real), o.tid,
-                      IF DevClass(fn, call) # "" THEN "dev:" \o DevClass(fn, call) ELSE "viol:Diagnosis")
-               /\ Chk(ResultOK(fn, call, o.inferred, o.real), o.tid, "viol:ResultInInferred")
+                      IF Excused(fn, call, real) THEN "dev:" \o DevClass(fn, call) ELSE "viol:Diagnosis")
+               /\ Chk(ResultOK(fn, call, real, o.real), o.tid,
+                      IF Excused(fn, call, real) THEN "dev:" \o DevClass(fn, call) ELSE "viol:ResultInInferred")
                /\ Chk(SolutionOK(fn, call, real), o.tid, "viol:SolutionFitsArguments")
                /\ Chk(o.nia = m.nia /\ o.nic = m.nic, o.tid, "drift:diagnostics")
                /\ Chk(o.inferred = m.inferred, o.tid, "drift:inferred")
